@@ -8,12 +8,12 @@ package effects
 
 import (
 	"fmt"
-	"os"
-	"time"
 	"go/token"
 	"go/types"
+	"os"
 	"sort"
 	"strings"
+	"time"
 
 	"golang.org/x/tools/go/ssa"
 	"golang.org/x/tools/go/types/typeutil"
@@ -65,10 +65,10 @@ type key struct {
 }
 
 type summary struct {
-	mut    map[key]Witness // (param, cell type) that may be written
-	ret    map[key]bool    // parameter objects the results may reference (directly or inside fresh memory)
-	fresh  map[int]bool    // cell types of fresh memory reachable from the results
-	stores map[key]map[key]bool // param object <- param object stored into it
+	mut         map[key]Witness      // (param, cell type) that may be written
+	ret         map[key]bool         // parameter objects the results may reference (directly or inside fresh memory)
+	fresh       map[int]bool         // cell types of fresh memory reachable from the results
+	stores      map[key]map[key]bool // param object <- param object stored into it
 	storesFresh map[key]map[int]bool
 }
 
@@ -89,20 +89,20 @@ func (s *summary) size() int {
 
 // Analysis is the whole-program state.
 type Analysis struct {
-	prog   *core.Prog
-	types  typeutil.Map // types.Type -> int
-	tlist  []types.Type
-	ref    map[int]map[int]bool // refTargets per type id
-	wild   map[int]bool         // type may reference anything (interface{}, func)
-	embeds map[[2]int]bool
-	named  []*types.Named // repo named types (for CHA)
-	impls  map[*types.Interface][]types.Type
-	sums   map[*ssa.Function]*summary
-	funcs  []*ssa.Function
-	bySig  map[string][]*ssa.Function
-	Unknown map[string]token.Pos // external callees that received argument-derived mutable memory and are not in the axiom table
-	External map[string]int      // axiom-table callees that actually received such memory
-	exempt map[string]string
+	prog     *core.Prog
+	types    typeutil.Map // types.Type -> int
+	tlist    []types.Type
+	ref      map[int]map[int]bool // refTargets per type id
+	wild     map[int]bool         // type may reference anything (interface{}, func)
+	embeds   map[[2]int]bool
+	named    []*types.Named // repo named types (for CHA)
+	impls    map[*types.Interface][]types.Type
+	sums     map[*ssa.Function]*summary
+	funcs    []*ssa.Function
+	bySig    map[string][]*ssa.Function
+	Unknown  map[string]token.Pos // external callees that received argument-derived mutable memory and are not in the axiom table
+	External map[string]int       // axiom-table callees that actually received such memory
+	exempt   map[string]string
 }
 
 func (a *Analysis) tid(t types.Type) int {
@@ -396,15 +396,15 @@ func (a *Analysis) Solve() int {
 }
 
 type fstate struct {
-	a     *Analysis
-	fn    *ssa.Function
-	pts   map[ssa.Value]objset
-	cont  map[obj]objset
-	nPar  int
-	alloc map[ssa.Instruction]int
-	next  int
-	sum   *summary
-	ch    bool
+	a         *Analysis
+	fn        *ssa.Function
+	pts       map[ssa.Value]objset
+	cont      map[obj]objset
+	nPar      int
+	alloc     map[ssa.Instruction]int
+	next      int
+	sum       *summary
+	ch        bool
 	contCache map[obj]objset
 	dirty     map[obj]bool
 	clCache   map[ssa.Value]objset
